@@ -639,6 +639,7 @@ func genC04(c *Ctx) {
 	c04RecycleLevels(c)
 	c04DerivedKeys(c)
 	c04AutKeySets(c)
+	c04ForeignKeys(c)
 	c04Malformed(c)
 	c04DegreeSwitch(c)
 	c04Packing(c)
